@@ -3,3 +3,5 @@ pub mod ir;
 pub mod model;
 pub mod ops;
 pub mod tensor;
+pub mod vals;
+pub mod elab;
